@@ -697,6 +697,8 @@ def _stack_scenarios(quick, seed):
 def c06(ck):
     quick = ck.tier == "quick"
     util.mc_design(ck, "MC_StackSel", "MC_StackSel_C06", "get_stack_info walk + size limit + skip rule for one thread: SP at every offset of 4 layouts, list positions 19/20, limit on/off, crash thread or not; invariants C06, WalkIsFunction, WalkBounded; liveness Terminates", workers=8)
+    util.apalache_inductive(ck, "StackLimitAp", "the size-limited branch of fill_thread_stack over unbounded integers (any region, stack pointer and cap): the kept region lies in the one found, respects the cap and contains the stack pointer whenever the region found did",
+                            obligations=[("Init", "C06_Limited", 0)])
     runs = dumps.run_scenarios(ck, _stack_scenarios(quick, ck.seed) + dumps.cross_scenarios(quick, ck.seed), "c06")
     evs = [e for r in runs for d in r["dumps"] for e in th_proj.c06_events(r, d)]
     evs += [{"ev": "failed", "origin": r["id"]} for r in runs if not r["dumps"] or r["dumps"][0]["outcome"] != "ok"]
@@ -1034,8 +1036,8 @@ def ptrace_seq_events(run, d):
     steps = d.get("steps", [])
     if any(s.get("k") == "send" and s.get("sig") != "rt" for s in steps) or end.get("pretraced") or scn["target"].get("leader_exits"):
         return None
-    if any(t.get("mode") == "vfork" for t in scn["target"].get("threads", [])):
-        return None          # (when the thread wakes is not recorded; MC_Ptrace_slow covers the schedules, Trace_Ptrace the end state)
+    if any(t.get("mode") == "vfork" and "vfork_ms" not in t for t in scn["target"].get("threads", [])):
+        return None          # (a thread that never comes back: finding D22, nothing to validate)
     tids = sorted({report["pid"]} | {t["tid"] for t in report["threads"]})
     tids.remove(report["pid"])
     order = [report["pid"]] + tids
@@ -1120,7 +1122,8 @@ def ptrace_seq_events(run, d):
     quiescent = all(str(t.get("sigpnd", "0")).strip("0") == "" for t in after.get("tasks", []))
     evs.append({"ev": "Observe", "quiescent": quiescent, "alive": [t in tasks for t in order], "delivered": [counters.get(t, {}).get("rt", 0) for t in order],
                 "tracer": [tasks.get(t, {}).get("tracer", 0) for t in order], "stopped": [tasks.get(t, {}).get("state") in ("T", "t") for t in order]})
-    hdr = {"ev": "header", "n": n, "sandbox": sandbox, "maxsend": max([1] + list(sends.values())), "steps": nstream, "origin": run["id"]}
+    slow = [idx[t["tid"]] for t in report["threads"] if t.get("mode") == "vfork"]      # when they wake is not recorded: inferred (Wake)
+    hdr = {"ev": "header", "n": n, "sandbox": sandbox, "slow": slow, "maxsend": max([1] + list(sends.values())), "steps": nstream, "origin": run["id"]}
     return [hdr] + evs
 
 
